@@ -62,6 +62,9 @@ type c11Val struct {
 	born   int    // order of creation (the number of its first name)
 	via    string // call-built values and views of them: the form that built the value
 	kind2  string // keyname: spelling state
+	// nospell: a map whose implementation keeps no key spellings (the one json:load-* returns:
+	// every key is a string there); only the names are judged, here and in its mutated states
+	nospell bool
 }
 
 func (v *c11Val) elems() []*c11Val { return v.b.cells[v.off : v.off+v.n] }
@@ -281,7 +284,7 @@ func c11View(v *c11Val, kind string, i, j int, prov string) *c11Val {
 	return &c11Val{kind: kind, b: v.b, off: v.off + i, n: j - i, sealed: v.sealed && kind == "list", prov: prov, via: v.via}
 }
 
-var c11Ops = []string{"list", "vector", "literal", "sorted-map", "to-bytes", "alias",
+var c11Ops = []string{"list", "vector", "literal", "sorted-map", "json-map", "to-bytes", "alias",
 	"slice-list", "slice-vector", "cdr", "rest", "slice-bytes",
 	"append-list", "append-vector", "append-vector-zero", "append-list-zero", "concat-one", "append-bytes", "concat-list", "concat-vector", "cons", "reverse", "map", "select", "reject", "zip", "insert-index", "insert-sorted",
 	"assoc", "dissoc", "keys", "nest-list", "nest-map", "get", "elem", "elem", "insert-index-elem", "insert-sorted-elem", "cons-elem", "append-elem",
@@ -330,6 +333,32 @@ func c11Step(r *fw.RNG, h *c11Heap) (src, opname, sig string) {
 			}
 		}
 		return setq(m, "(sorted-map"+sb.String()+")"), op, op
+	case "json-map":
+		// a sorted-map made by another constructor of the library: json:load-string returns an
+		// implementation of its own (string keys only).  "Sorted maps identify a key by its name
+		// whether given as string or symbol ... and behave as a finite map under any sequence of
+		// operations" is said of sorted maps, not of one implementation, so the value joins the
+		// heap like any other map (targets of assoc / dissoc / assoc! / dissoc! / get / keys with
+		// both key spellings, stored in containers, aliased).
+		m := &c11Val{kind: "map", m: map[string]*c11Val{}, msym: map[string]bool{}, spell: map[string]string{}, prov: "json-loaded", nospell: true}
+		var doc []string
+		for i := r.Range(0, 4); i > 0; i-- {
+			k := fw.Pick(r, []string{"a", "b", "c", "k1", "zz"})
+			if _, dup := m.m[k]; dup {
+				continue
+			}
+			if r.Chance(1, 3) {
+				cs, txt := ints(r.Range(0, 3))
+				m.m[k] = c11Seq("vector", cs, "json-loaded")
+				doc = append(doc, fmt.Sprintf("\\\"%s\\\":[%s]", k, strings.Join(strings.Fields(txt), ",")))
+			} else {
+				x := int64(r.Range(0, 40))
+				m.m[k] = c11Int(x)
+				doc = append(doc, fmt.Sprintf("\\\"%s\\\":%d", k, x))
+			}
+			c11Spell(m, k, "s")
+		}
+		return setq(m, "(json:load-string \"{"+strings.Join(doc, ",")+"}\" :exact-integers true)"), op, op
 	case "to-bytes":
 		s := fw.Pick(r, []string{"", "a", "abc", "hello", "xyzzy!"})
 		return setq(&c11Val{kind: "bytes", by: []byte(s), prov: "fresh"}, fmt.Sprintf("(to-bytes %q)", s)), op, op
@@ -551,14 +580,18 @@ func c11Step(r *fw.RNG, h *c11Heap) (src, opname, sig string) {
 			delete(target.m, k)
 			form = fmt.Sprintf("(%s %s %s)", op, n, ktxt)
 		}
+		on := ""
+		if v.prov == "json-loaded" {
+			on = "|on-json-loaded|key-as-" + ksp
+		}
 		if mut {
 			if r.Bool() {
 				name := h.bind(target)
-				return fmt.Sprintf("(set '%s %s)", name, form), op, op + "|bound"
+				return fmt.Sprintf("(set '%s %s)", name, form), op, op + "|bound" + on
 			}
-			return form, op, op
+			return form, op, op + on
 		}
-		return setq(target, form), op, op
+		return setq(target, form), op, op + on
 	case "keys":
 		n, v := h.pick(r, c11IsMap)
 		if v == nil {
@@ -594,7 +627,11 @@ func c11Step(r *fw.RNG, h *c11Heap) (src, opname, sig string) {
 			return "", "", ""
 		}
 		name := h.bind(v.m[k])
-		return fmt.Sprintf("(set '%s (get %s %q))", name, n, k), op, op + "|" + v.m[k].kind
+		ktxt := fmt.Sprintf("%q", k)
+		if r.Bool() {
+			ktxt = "'" + k // a key is its name, however it is written
+		}
+		return fmt.Sprintf("(set '%s (get %s %s))", name, n, ktxt), op, op + "|" + v.m[k].kind + "|" + v.prov // prov json-loaded: a map from json:load-string
 	case "elem":
 		// a container reached as an ELEMENT of a sequence (a row of a zip result, a
 		// nested list ...) gets a name of its own: it is the same value
@@ -805,7 +842,14 @@ func c11Run(w *fw.W, idx int) {
 		w.Eval(1)
 		w.Logf("%s  => %s", src, v)
 		if v.Type == lisp.LError {
-			w.Violation("operation-failed:"+op, "a well-formed container operation failed: "+v.String(), strings.Join(log, "\n"))
+			key := "operation-failed:" + op
+			if strings.Contains(sig, "json-loaded") {
+				key += ":map-from-json-load"
+				if strings.Contains(sig, "key-as-y") || strings.Contains(src, " '") {
+					key += ":symbol-key"
+				}
+			}
+			w.Violation(key, "a well-formed container operation failed: "+v.String(), strings.Join(log, "\n"))
 			return
 		}
 		// re-inspect every live value
@@ -869,6 +913,8 @@ func c11Spell(m *c11Val, k, sp string) {
 		m.spell = map[string]string{}
 	}
 	switch cur := m.spell[k]; {
+	case m.nospell:
+		m.spell[k] = "*"
 	case cur == "":
 		m.spell[k] = sp
 	case cur != sp:
